@@ -242,24 +242,23 @@ namespace Pistache
 
             explicit Timeout(Timeout&& other)
                 : handler(other.handler)
+                , version(other.version)
                 , transport(other.transport)
-                , armed(other.armed)
-                , timerFd(other.timerFd)
+                , state(std::move(other.state))
                 , peer(std::move(other.peer))
             {
-                // cppcheck-suppress useInitializationList
-                other.timerFd = -1;
+                // the timer goes with its state: what is left behind owns none
+                other.state = std::make_shared<State>();
             }
 
             Timeout& operator=(Timeout&& other)
             {
-                handler       = other.handler;
-                transport     = other.transport;
-                version       = other.version;
-                armed         = other.armed;
-                timerFd       = other.timerFd;
-                other.timerFd = -1;
-                peer          = std::move(other.peer);
+                handler     = other.handler;
+                transport   = other.transport;
+                version     = other.version;
+                state       = std::move(other.state);
+                other.state = std::make_shared<State>();
+                peer        = std::move(other.peer);
                 return *this;
             }
 
@@ -268,20 +267,32 @@ namespace Pistache
             template <typename Duration>
             void arm(Duration duration)
             {
+                // An armed time-out must survive a move of this object (a handler
+                // arms it and moves the response writer away to answer later):
+                // the expiry captures what it needs by value, and the armed flag
+                // and the descriptor live in a block shared with whichever object
+                // owns the timer by then - not in the object it was armed on.
+                auto st = state;
+                auto h  = handler;
+                auto v  = version;
+                auto tr = transport;
+                auto pr = peer;
+
                 Async::Promise<uint64_t> p([=](Async::Deferred<uint64_t> deferred) {
-                    timerFd = TRY_RET(timerfd_create(CLOCK_MONOTONIC, TFD_NONBLOCK));
-                    transport->armTimer(timerFd, duration, std::move(deferred));
+                    st->timerFd = TRY_RET(timerfd_create(CLOCK_MONOTONIC, TFD_NONBLOCK));
+                    tr->armTimer(st->timerFd, duration, std::move(deferred));
                 });
 
                 p.then(
                     [=](uint64_t numWakeup) {
-                        this->armed = false;
-                        this->onTimeout(numWakeup);
-                        close(timerFd);
+                        st->armed = false;
+                        Timeout::onTimeout(h, v, tr, pr, numWakeup);
+                        close(st->timerFd);
+                        st->timerFd = -1;
                     },
                     [=](std::exception_ptr exc) { std::rethrow_exception(exc); });
 
-                armed = true;
+                st->armed = true;
             }
 
             void disarm();
@@ -294,13 +305,20 @@ namespace Pistache
             Timeout(Tcp::Transport* transport_, Http::Version version, Handler* handler_,
                     std::weak_ptr<Tcp::Peer> peer_);
 
-            void onTimeout(uint64_t numWakeup);
+            static void onTimeout(Handler* handler, Http::Version version, Tcp::Transport* transport,
+                                  const std::weak_ptr<Tcp::Peer>& peer, uint64_t numWakeup);
+
+            // shared with the expiry continuation, see arm()
+            struct State
+            {
+                bool armed = false;
+                Fd timerFd = -1;
+            };
 
             Handler* handler;
             Http::Version version;
             Tcp::Transport* transport;
-            bool armed;
-            Fd timerFd;
+            std::shared_ptr<State> state;
             std::weak_ptr<Tcp::Peer> peer;
         };
 
